@@ -56,6 +56,8 @@ def run(rep, tier, seed):
     rep.assume("A1", "A4", "A6", "A8")
     D.run_contracts(rep, "C18", D.relational(), tier)
     D.run_contracts(rep, "C18", D.bounds(), tier, also=("C13",))
+    # agreement of the exact algorithms and "never worse than a heuristic" rest on their optimality (C02): the whole-search contracts
+    D.run_contracts(rep, "C18", D.exact(), "lite" if tier == "quick" else tier, also=("C02",), only_tagged=True)
     D.run_static(rep, "C18", ("purity",))      # every per-call contract presupposes that results are functions of the arguments
     t3(rep, tier, seed)
     D.link_falsifier(rep)
